@@ -26,14 +26,39 @@ LEVEL_NOTE = 'requests are well-formed and in canonical item order; the rejectio
 RULE = ('case = (served subset, supported transfer-syntax subset, list of (abstract syntax, ordered transfer-syntax '
         'list)); distinct = same tuple; non-trivial = at least one context proposed')
 ASSUMPTIONS = ['user information item last, Maximum Length first sub-item (what conformant peers send)']
-REQUIRED = ['oracle.reply-structure', 'oracle.accept-iff', 'oracle.routing', 'oracle.titles-repeated']
+REQUIRED = ['oracle.reply-structure', 'oracle.accept-iff', 'oracle.routing', 'oracle.titles-repeated',
+            'oracle.extra-user-items', 'oracle.duplicate-transfer-syntax-entries']
 
 CLASSES = [b'1.2.840.10008.1.1', b'1.2.840.10008.5.1.4.1.1.2', b'1.2.840.10008.5.1.4.1.2.1.1']
 STRANGER = b'1.2.840.10008.5.1.4.1.1.999'
 TSS = [F.IMPLICIT, F.EXPLICIT, b'1.2.840.10008.1.2.2', b'1.2.840.10008.1.2.4.50']
 TS_LISTS = [list(p) for n in (1, 2, 3) for p in itertools.permutations(range(4), n)]
 assert len(TS_LISTS) == 40
-CONTEXT_CHOICES = [(a, tl) for a in range(4) for tl in range(40)]     # 160
+# ... and the lists in which a transfer syntax is proposed more than once
+DUP_LISTS = [list(p) for n in (2, 3) for p in itertools.product(range(4), repeat=n) if len(set(p)) < n]   # 44
+TS_LISTS = TS_LISTS + DUP_LISTS
+NDISTINCT = 160
+CONTEXT_CHOICES = [(a, tl) for a in range(4) for tl in range(40)] + \
+    [(a, tl) for a in range(4) for tl in range(40, 84)]                    # 160 + 176
+
+
+def _extras():
+    """User-information sub-items a request may carry besides the two mandatory ones.  None of
+    them is part of the acceptance rule."""
+    out = [{'type': 0x55, 'rsv': 0, 'name': b'REFPEER_1'},
+           {'type': 0x53, 'rsv': 0, 'invoked': 1, 'performed': 1}]
+    for a in range(4):
+        for scu, scp in ((0, 0), (0, 1), (1, 0), (1, 1)):
+            out.append({'type': 0x54, 'rsv': 0, 'uid': STRANGER if a == 3 else CLASSES[a], 'scu': scu,
+                        'scp': scp})
+    for a in range(3):
+        out.append({'type': 0x56, 'rsv': 0, 'uid': CLASSES[a], 'appinfo': b'\x01\x00\x01'})
+    out.append({'type': 0x58, 'rsv': 0, 'idtype': 1, 'posrsp': 0, 'primary': b'user', 'secondary': b''})
+    out.append({'type': 0x58, 'rsv': 0, 'idtype': 2, 'posrsp': 1, 'primary': b'user', 'secondary': b'secret'})
+    return out
+
+
+EXTRAS = _extras()          # 23, already in the order in which they may follow each other
 NRANDOM = {'quick': 4000, 'thorough': 150000}
 
 
@@ -44,7 +69,7 @@ def exhaustive(tier):
 def plan(tier, seed):
     specs = []
     configs = [(s, t) for s in range(8) for t in range(16)]
-    for part in chunked(configs, 16):
+    for part in chunked(configs, 8):
         specs.append({'name': 'sweep', 'configs': part, 'n': 1 if tier == 'quick' else 2})
     for part in chunked(range(NRANDOM[tier]), 8):
         if part:
@@ -68,12 +93,19 @@ def run_shard(spec, tier, seed):
     if spec['name'] == 'sweep':
         for served, ts in spec['configs']:
             run_case(res, {'served': served, 'ts': ts, 'contexts': [], 'ids': [], 'probe': True})
-            for c in range(160):
+            for c in range(len(CONTEXT_CHOICES)):
                 run_case(res, {'served': served, 'ts': ts, 'contexts': [c], 'ids': [1], 'probe': True})
+            # every optional user item with a stride of the single-context requests (all of them
+            # in the thorough tier)
+            step = 16 if spec['n'] < 2 else 1
+            for e in range(len(EXTRAS)):
+                for c in range((e + served + ts) % step, NDISTINCT, step):
+                    run_case(res, {'served': served, 'ts': ts, 'contexts': [c], 'ids': [1], 'probe': True,
+                                   'extra': [e]})
             if spec['n'] >= 2:
                 k = 0
-                for c1 in range(160):
-                    for c2 in range(160):
+                for c1 in range(NDISTINCT):
+                    for c2 in range(NDISTINCT):
                         k += 1
                         run_case(res, {'served': served, 'ts': ts, 'contexts': [c1, c2],
                                        'ids': [5, 3] if k % 2 else [1, 255], 'probe': k % 9 == 0})
@@ -84,8 +116,9 @@ def run_shard(spec, tier, seed):
             n = r.choice([2, 3, 4, 4, 6, 10])
             ids = r.sample(range(1, 256, 2), n)
             run_case(res, {'served': r.randrange(8), 'ts': r.randrange(16),
-                           'contexts': [r.randrange(160) for _ in range(n)], 'ids': ids,
-                           'probe': r.random() < 0.5, 'titles': [r.randrange(1, 17), r.randrange(1, 17)]})
+                           'contexts': [r.randrange(len(CONTEXT_CHOICES)) for _ in range(n)], 'ids': ids,
+                           'probe': r.random() < 0.5, 'titles': [r.randrange(1, 17), r.randrange(1, 17)],
+                           'extra': r.sample(range(len(EXTRAS)), r.choice([0, 0, 1, 2, 4]))})
     return res
 
 
@@ -113,8 +146,11 @@ class Recorder(object):
 _rq_cache = {}
 
 
-def request_object(contexts, ids, titles):
-    key = (tuple(contexts), tuple(ids), tuple(titles or ()))
+def request_object(contexts, ids, titles, extra=()):
+    extra = sorted(set(extra))
+    if sum(1 for e in extra if EXTRAS[e]['type'] == 0x58) > 1:
+        extra = [e for e in extra if EXTRAS[e]['type'] != 0x58] + [e for e in extra if EXTRAS[e]['type'] == 0x58][:1]
+    key = (tuple(contexts), tuple(ids), tuple(titles or ()), tuple(extra))
     tree = _rq_cache.get(key)
     if tree is None:
         ctxs = []
@@ -124,7 +160,8 @@ def request_object(contexts, ids, titles):
             ctxs.append((cid, abstract, tuple(TSS[t] for t in TS_LISTS[tl])))
         called = b'ACCEPTOR-TITLE16'[:titles[0]] if titles else b'ANY-SCP'
         calling = b'REQUESTOR-TITLE6'[:titles[1]] if titles else b'ECHOSCU'
-        tree = F.assoc_rq_tree(contexts=ctxs, called=called, calling=calling)
+        tree = F.assoc_rq_tree(contexts=ctxs, called=called, calling=calling,
+                               extra_subs=[EXTRAS[e] for e in extra])
         if len(_rq_cache) < 50000:
             _rq_cache[key] = tree
     from pynetdicom2 import pdu as P
@@ -138,8 +175,12 @@ def run_case(res, case):
     contexts, ids = case['contexts'], case['ids']
     res.evaluations += 1
     if contexts:
-        res.distinct.add('%d|%d|%s|%s' % (case['served'], case['ts'], contexts, ids))
-    tree, rq = request_object(contexts, ids, case.get('titles'))
+        res.distinct.add('%d|%d|%s|%s|%s' % (case['served'], case['ts'], contexts, ids, case.get('extra', '')))
+    tree, rq = request_object(contexts, ids, case.get('titles'), case.get('extra', ()))
+    if case.get('extra'):
+        res.count('oracle.extra-user-items')
+    if any(c >= NDISTINCT for c in contexts):
+        res.count('oracle.duplicate-transfer-syntax-entries')
     proposed = []          # (id, abstract, [ts...])
     for item in tree['items']:
         if item['type'] == 0x20:
@@ -151,6 +192,10 @@ def run_case(res, case):
     where = 'served=%s supported=%s proposed=%s' % (
         [s.decode() for s in served], [t.decode()[-6:] for t in supported],
         [(c, a.decode()[-8:], [t.decode()[-6:] for t in ts]) for c, a, ts in proposed])
+    if case.get('extra'):
+        where += ' user-items=%s' % [
+            ('%02X' % EXTRAS[e]['type'], EXTRAS[e].get('uid', b'').decode()[-8:], EXTRAS[e].get('scu'),
+             EXTRAS[e].get('scp')) for e in case['extra']]
 
     def associate(script):
         service = Recorder([s.decode() for s in served])
